@@ -1174,6 +1174,105 @@ func applyCustomOptions(fd *descriptorpb.FileDescriptorProto, base int32) {
 	}
 }
 
+// pinnedEditionsFiles: closed enums in edition 2023 whose first value is not zero — once closed by an enum-level
+// feature, once by the file-level default (with an enum re-opened at enum level) — used by singular
+// explicit-presence fields without a default, with a default, repeated, in a oneof and as LEGACY_REQUIRED.
+// The implicit default of such a field is the enum's FIRST value, not 0 (seeded change C41-2).
+func (g *sgen) pinnedEditionsFiles() []*descriptorpb.FileDescriptorProto {
+	scope := "." + pkgPlaceholder
+	closedF := &descriptorpb.EnumOptions{Features: &descriptorpb.FeatureSet{EnumType: descriptorpb.FeatureSet_CLOSED.Enum()}}
+	openF := &descriptorpb.EnumOptions{Features: &descriptorpb.FeatureSet{EnumType: descriptorpb.FeatureSet_OPEN.Enum()}}
+	ev := func(n string, num int32) *descriptorpb.EnumValueDescriptorProto {
+		return &descriptorpb.EnumValueDescriptorProto{Name: proto.String(n), Number: proto.Int32(num)}
+	}
+	msg := func(name, enum, nested string, first string, second string) *descriptorpb.DescriptorProto {
+		ef := func(n string, num int32, tn string) *dpb {
+			return &dpb{Name: proto.String(n), Number: proto.Int32(num), Label: tOptional(), Type: descriptorpb.FieldDescriptorProto_TYPE_ENUM.Enum(), TypeName: proto.String(tn), JsonName: proto.String(strs.JSONCamelCase(n))}
+		}
+		md := &descriptorpb.DescriptorProto{Name: proto.String(name), OneofDecl: []*descriptorpb.OneofDescriptorProto{{Name: proto.String("o")}}}
+		e := ef("e", 1, scope+"."+enum)
+		edef := ef("e_def", 2, scope+"."+enum)
+		edef.DefaultValue = proto.String(second)
+		re := ef("re", 3, scope+"."+enum)
+		re.Label = tRepeated()
+		oe := ef("oe", 4, scope+"."+enum)
+		oe.OneofIndex = proto.Int32(0)
+		oi := &dpb{Name: proto.String("oi"), Number: proto.Int32(5), Label: tOptional(), Type: descriptorpb.FieldDescriptorProto_TYPE_INT32.Enum(), JsonName: proto.String("oi"), OneofIndex: proto.Int32(0)}
+		ereq := ef("e_req", 6, scope+"."+enum)
+		ereq.Options = &descriptorpb.FieldOptions{Features: &descriptorpb.FeatureSet{FieldPresence: descriptorpb.FeatureSet_LEGACY_REQUIRED.Enum()}}
+		en := ef("e_nested", 7, scope+"."+name+"."+nested)
+		md.Field = []*dpb{e, edef, re, oe, oi, ereq, en}
+		md.EnumType = []*descriptorpb.EnumDescriptorProto{{Name: proto.String(nested), Options: proto.Clone(closedF).(*descriptorpb.EnumOptions),
+			Value: []*descriptorpb.EnumValueDescriptorProto{ev(strings.ToUpper(nested)+"_NINE", 9), ev(strings.ToUpper(nested)+"_ZERO", 0)}}}
+		return md
+	}
+	f1 := &descriptorpb.FileDescriptorProto{
+		Name: proto.String(g.prefix + "_pined.proto"), Package: proto.String(pkgPlaceholder), Syntax: proto.String("editions"), Edition: descriptorpb.Edition_EDITION_2023.Enum(),
+		EnumType: []*descriptorpb.EnumDescriptorProto{
+			{Name: proto.String("PinEdClosed"), Options: proto.Clone(closedF).(*descriptorpb.EnumOptions),
+				Value: []*descriptorpb.EnumValueDescriptorProto{ev("PIN_ED_CLOSED_SEVEN", 7), ev("PIN_ED_CLOSED_ZERO", 0), ev("PIN_ED_CLOSED_NEG", -2)}},
+			{Name: proto.String("PinEdOpen"), Value: []*descriptorpb.EnumValueDescriptorProto{ev("PIN_ED_OPEN_ZERO", 0), ev("PIN_ED_OPEN_ONE", 1)}},
+		},
+		MessageType: []*descriptorpb.DescriptorProto{msg("PinEdMsg", "PinEdClosed", "Inner", "PIN_ED_CLOSED_SEVEN", "PIN_ED_CLOSED_NEG")},
+	}
+	f1.MessageType[0].Field = append(f1.MessageType[0].Field, &dpb{Name: proto.String("e_open"), Number: proto.Int32(8), Label: tOptional(),
+		Type: descriptorpb.FieldDescriptorProto_TYPE_ENUM.Enum(), TypeName: proto.String(scope + ".PinEdOpen"), JsonName: proto.String("eOpen")})
+	f2 := &descriptorpb.FileDescriptorProto{
+		Name: proto.String(g.prefix + "_pined2.proto"), Package: proto.String(pkgPlaceholder), Syntax: proto.String("editions"), Edition: descriptorpb.Edition_EDITION_2023.Enum(),
+		Options: &descriptorpb.FileOptions{Features: &descriptorpb.FeatureSet{EnumType: descriptorpb.FeatureSet_CLOSED.Enum()}},
+		EnumType: []*descriptorpb.EnumDescriptorProto{
+			{Name: proto.String("PinEdFileClosed"), Value: []*descriptorpb.EnumValueDescriptorProto{ev("PIN_ED_FILE_CLOSED_NEG", -3), ev("PIN_ED_FILE_CLOSED_ZERO", 0), ev("PIN_ED_FILE_CLOSED_FIVE", 5)}},
+			{Name: proto.String("PinEdReopened"), Options: proto.Clone(openF).(*descriptorpb.EnumOptions),
+				Value: []*descriptorpb.EnumValueDescriptorProto{ev("PIN_ED_REOPENED_ZERO", 0), ev("PIN_ED_REOPENED_TWO", 2)}},
+		},
+		MessageType: []*descriptorpb.DescriptorProto{msg("PinEdMsg2", "PinEdFileClosed", "Inner", "PIN_ED_FILE_CLOSED_NEG", "PIN_ED_FILE_CLOSED_FIVE")},
+	}
+	f2.MessageType[0].Field = append(f2.MessageType[0].Field, &dpb{Name: proto.String("e_open"), Number: proto.Int32(8), Label: tOptional(),
+		Type: descriptorpb.FieldDescriptorProto_TYPE_ENUM.Enum(), TypeName: proto.String(scope + ".PinEdReopened"), JsonName: proto.String("eOpen")})
+	for _, f := range []*descriptorpb.FileDescriptorProto{f1, f2} {
+		for _, m := range f.MessageType {
+			g.claim(scope, m.GetName())
+		}
+		for _, e := range f.EnumType {
+			g.claim(scope, e.GetName())
+			for _, v := range e.Value {
+				g.claim(scope, v.GetName())
+			}
+		}
+	}
+	return []*descriptorpb.FileDescriptorProto{f1, f2}
+}
+
+// camelGroups is a message with several DIFFERENT camelCase collision groups (`_foo`/`X_foo` -> XFoo, ...), each
+// with one member inside the same oneof and one outside: resolveCamelCaseConflicts appends one `_<number>` suffix
+// per group to the shared oneof name, so the names of the oneof's Has/Clear/Which methods record the order in which
+// the groups were resolved (hybrid and opaque API).
+func camelGroups(name string) *descriptorpb.DescriptorProto {
+	md := &descriptorpb.DescriptorProto{Name: proto.String(name), OneofDecl: []*descriptorpb.OneofDescriptorProto{{Name: proto.String("u")}, {Name: proto.String("w")}}}
+	add := func(n string, num int32, t descriptorpb.FieldDescriptorProto_Type, oneof int32) {
+		f := &dpb{Name: proto.String(n), Number: proto.Int32(num), Label: tOptional(), Type: t.Enum(), JsonName: proto.String(strs.JSONCamelCase(n))}
+		if oneof >= 0 {
+			f.OneofIndex = proto.Int32(oneof)
+		}
+		md.Field = append(md.Field, f)
+	}
+	i32, str, bl := descriptorpb.FieldDescriptorProto_TYPE_INT32, descriptorpb.FieldDescriptorProto_TYPE_STRING, descriptorpb.FieldDescriptorProto_TYPE_BOOL
+	add("_foo", 1, i32, 0)
+	add("_bar", 2, str, 0)
+	add("X_baz", 3, i32, 0)
+	add("_qux", 4, bl, 0)
+	add("plain_member", 5, i32, 0)
+	add("X_foo", 6, i32, -1)
+	add("X_bar", 7, str, -1)
+	add("_baz", 8, i32, -1)
+	add("X_qux", 9, bl, -1)
+	add("_zip", 10, i32, 1)
+	add("X_zap", 11, i32, 1)
+	add("X_zip", 12, i32, -1)
+	add("_zap", 13, i32, -1)
+	return md
+}
+
 func pinNames() []*descriptorpb.DescriptorProto {
 	mk := func(msg string, names []string, oneof string) *descriptorpb.DescriptorProto {
 		md := &descriptorpb.DescriptorProto{Name: proto.String(msg)}
@@ -1205,6 +1304,7 @@ func pinNames() []*descriptorpb.DescriptorProto {
 		mk("PinHasO", []string{"has_o"}, "o"),
 		mk("PinClearO", []string{"clear_o"}, "o"),
 		mk("PinCamel", []string{"foo_bar", "FooBar_"}, ""),
+		camelGroups("PinCamelGroups"),
 	}
 }
 
@@ -1281,6 +1381,14 @@ func (g *sgen) file(syntax, suffix string, nmsgs int, deps []*descriptorpb.FileD
 			g.enum(syntax, scope, n, nil, fd)
 			return n
 		})
+	}
+	{
+		// camelCase collision groups sharing a oneof (C40: order of the suffixes on the oneof's method names)
+		n := g.freshName(scope, func() string { return "" }, "Camel")
+		md := camelGroups(n)
+		fd.MessageType = append(fd.MessageType, md)
+		g.msgs = append(g.msgs, &msgRef{full: scope + "." + n, syntax: syntax, d: md, noExt: true})
+		g.h("motif:camel_groups")
 	}
 	if syntax != "proto3" {
 		if g.r.Intn(2) == 0 {
